@@ -419,6 +419,54 @@ fn real_hash(v: SimpleData<NoCustom>) -> u64 {
     h.finish()
 }
 
+/// variant `raw`: the constant goes through the public inherent method `SimpleGarnishData::add(SimpleData)` instead of the
+/// trait's typed adders; the three preallocated constants can only be spelled that way
+fn cache_add_raw(d: &mut SimpleStore, t: &Term) -> Result<(usize, String, u64), String> {
+    let de = |e: DataError| format!("ERR {}", e);
+    if let Some(a) = atom(t) {
+        let v: SimpleData<NoCustom> = match a {
+            "U" => SimpleData::Unit,
+            "T" => SimpleData::True,
+            "F" => SimpleData::False,
+            _ => return Err("BAD-TERM".into()),
+        };
+        let h = real_hash(v.clone());
+        return Ok((d.add(v).map_err(de)?, a.to_string(), h));
+    }
+    let items = match t {
+        Term::List(items) if !items.is_empty() => items,
+        _ => return Err("BAD-TERM".into()),
+    };
+    let head = atom(&items[0]).ok_or("BAD-TERM")?;
+    let num = |i: usize| -> Result<u64, String> { atom(items.get(i).ok_or("BAD-TERM")?).ok_or("BAD-TERM")?.parse::<u64>().map_err(|_| "BAD-TERM".to_string()) };
+    let (v, want): (SimpleData<NoCustom>, String) = match head {
+        "i" => {
+            let v: i32 = atom(&items[1]).ok_or("BAD-TERM")?.parse().map_err(|_| "BAD-TERM")?;
+            (SimpleData::Number(SimpleNumber::Integer(v)), format!("(i {})", v))
+        }
+        "c" => {
+            let c = char::from_u32(num(1)? as u32).ok_or("BAD-TERM")?;
+            (SimpleData::Char(c), format!("(c {})", c as u32))
+        }
+        "b" => (SimpleData::Byte(num(1)? as u8), format!("(b {})", num(1)? as u8)),
+        "s" => (SimpleData::Symbol(num(1)?), format!("(s {})", num(1)?)),
+        "cl" => {
+            let mut text = String::new();
+            let mut want = String::from("(cl");
+            for k in 1..items.len() {
+                let c = char::from_u32(num(k)? as u32).ok_or("BAD-TERM")?;
+                text.push(c);
+                want.push_str(&format!(" {}", c as u32));
+            }
+            want.push(')');
+            (SimpleData::CharList(text), want)
+        }
+        _ => return Err("BAD-TERM".into()),
+    };
+    let h = real_hash(v.clone());
+    Ok((d.add(v).map_err(de)?, want, h))
+}
+
 fn cache_add_term(d: &mut SimpleStore, t: &Term) -> Result<(usize, String, u64), String> {
     let items = match t {
         Term::List(items) if !items.is_empty() => items,
@@ -511,7 +559,7 @@ pub fn cache_case(f: &[&str]) -> String {
             Ok(t) => t,
             Err(_) => return "BAD-CASE".to_string(),
         };
-        match cache_add_term(&mut d, &t) {
+        match if f[2] == "raw" { cache_add_raw(&mut d, &t) } else { cache_add_term(&mut d, &t) } {
             Ok((a, w, x)) => {
                 addrs.push(a);
                 wants.push(w);
